@@ -4,6 +4,7 @@
 # 2. confirms in a scratch copy of /repo: patch applies, builds (both tags), baseline tests pass, demo fails with / passes without
 # 3. runs the named quick checks against the mutated copy
 set -u
+HERE=$(cd "$(dirname "$0")" && pwd)
 out=$1; name=$2; shift 2
 dst=/verif/seeded/$name
 mkdir -p "$dst"
@@ -23,7 +24,7 @@ echo "-- demo WITH change:"; ( cd "$copy" && timeout 300 $demo 2>&1 | tail -3 )
 rm -f "$copy/zz_demo_test.go"
 echo "-- baseline tests with change:"; ( cd "$copy" && go test -vet=off -count=1 . 2>&1 | tail -1 )
 for id in "$@"; do
-  outp=$(cd /verif && VERIF_REPO="$copy" timeout 900 ./check $id quick 2>&1); rc=$?
+  outp=$(cd "$HERE" && VERIF_REPO="$copy" timeout 900 ./check $id quick 2>&1); rc=$?
   echo "== $id rc=$rc $(echo "$outp" | grep -c '^VIOLATION') violations; kinds: $(echo "$outp" | grep -o 'kind=[^ ]*' | sort | uniq -c | tr '\n' ' ')"
   echo "$outp" | grep -i 'infra' | head -3
 done
